@@ -204,6 +204,7 @@ func compactOff(k int) int {
 }
 
 func (c *Ctx) compactCase(ns share.Namespace, txs [][]byte, allRanges bool) {
+	defer c.recoverCase()
 	c.newCase()
 	c.emit(fmt.Sprintf("css new %s 0", hx(ns.Bytes())), "ok")
 	// representation variant: the namespace handed to the splitter is a 29-byte VIEW with spare capacity
